@@ -6,7 +6,7 @@ from hypothesis import strategies as st
 
 from ..core import Clause, Discard, call, require
 from ..strategies import bank_specs, floats
-from .c05 import _thr, bank_labels, build_or_discard, narrowed_specs
+from .c05 import _thr, apply_warmup, bank_labels, build_or_discard, narrowed_specs, warmups
 
 PROPERTY = "C07"
 LEVEL = "exploration"
@@ -90,6 +90,7 @@ def check_agree(case):
     else:
         require(left < 0 < right, "zero-phase filter {}: supports {!r} do not straddle sample 0", i, (left, right))
 
+    apply_warmup(bank, spec["num_filts"], i, W, case.get("warmup"))
     x = call("get_impulse_response", bank.get_impulse_response, i, W)
     X = call("get_frequency_response", bank.get_frequency_response, i, W)
     require(isinstance(x, np.ndarray) and x.shape == (W,), "impulse response has shape {!r}, expected ({},)", getattr(x, "shape", None), W)
@@ -160,6 +161,7 @@ def _cases():
         "bank": banks, "filt": st.integers(0, 39),
         "wmode": st.sampled_from(["base", "base+1", "mult", "mult", "mult"]),
         "mult": st.one_of(floats(1.0, 4.0), floats(1.0, 1.2)),
+        "warmup": warmups(),
     })
 
 
